@@ -203,7 +203,7 @@ def run(tier="quick", only_key=None):
             # defaults for everything that decides the degree: fraction and polynomial coefficient tuples
             keep_default = [k for k, (ann, d) in kw.items() if k == "dealiasing_fraction" or "polynomial" in k or k.endswith("difficulties") and "polynomial" in k]
             kwargs = catalog.symbolic_kwargs(clsp, skip=keep_default)
-            o = itp.call(clsp, catalog.positional_args(clsp, D), kwargs)
+            o = catalog.construct(itp, clsp, catalog.positional_args(clsp, D), kwargs)
             nf = o.f["_integrator"].f.get("arg_nonlinear_fun")
             Cn = o.f["num_channels"]
             res = itp.call(nf, [state_hat(D, Cn, parity)])
